@@ -501,7 +501,7 @@ def rdataset_history(ctx, rng, t, pool, foreign, owner):
         j = 1 - i if rng.random() < 0.8 else i
         r, m, o, om = rs[i], ms[i], rs[j], ms[j]
         op = rng.choice(("add", "add", "add_ttl", "add_foreign", "union_update", "intersection_update", "update", "difference_update", "remove", "copy", "eq",
-                         "symmetric_difference_update", "ixor", "copying", "foreign_operand"))
+                         "symmetric_difference_update", "ixor", "copying", "foreign_operand", "empty_then_union"))
         trace.append((op, i, j))
         try:
             if op in ("add", "add_ttl"):
@@ -568,6 +568,32 @@ def rdataset_history(ctx, rng, t, pool, foreign, owner):
             elif op == "difference_update":
                 r.difference_update(o)
                 m["k"] = {} if o is r else {k: v for k, v in m["k"].items() if k not in om["k"]}
+            elif op == "empty_then_union":
+                # a set that was emptied keeps its old TTL attribute; what is merged into an EMPTY set brings its own TTL
+                if o is not r and om["k"]:
+                    for rd in list(r):
+                        r.remove(rd)
+                    m["k"] = {}
+                    how = rng.choice(("union_update", "update", "|=", "+=", "union"))
+                    if how in ("union_update", "update"):
+                        getattr(r, how)(o)
+                    elif how == "|=":
+                        r |= o
+                    elif how == "+=":
+                        r += o
+                    else:
+                        res = r.union(o)
+                        if res.ttl != om["ttl"]:
+                            ctx.violation(f"rdataset-ttl-differs-from-model:{t}:union-into-emptied-set", f"{trace}: ttl {res.ttl} model {om['ttl']}", None)
+                            return
+                        r.update(o)
+                    m_update_ttl(m, om["ttl"])
+                    for k, rd in list(om["k"].items()):
+                        if singleton and m["k"] and k not in m["k"]:
+                            m["k"] = {}
+                        m["k"].setdefault(k, rd)
+                    if sig and om["k"] and not (m["covers"]):
+                        m["covers"] = om["covers"]
             elif op in ("symmetric_difference_update", "ixor"):
                 if op == "ixor":
                     r ^= o
